@@ -45,18 +45,19 @@ def step (s : St) (line : String) : St × List String :=
     match kindOf k with
     | some k =>
       let (t, o) := s.t.step s.max s.probes (.open k)
-      ({ s with t := t }, [s!"{showOut o} {showTable t}"])
+      ({ s with t := t }, [s!"{showOut o}"])
     | none => (s, ["bad-op"])
   | ["close", c] =>
     match c.toNat? with
     | some c => let (t, o) := s.t.step s.max s.probes (.close c)
-                ({ s with t := t }, [s!"{showOut o} {showTable t}"])
+                ({ s with t := t }, [s!"{showOut o}"])
     | none => (s, ["bad-op"])
   | ["frame", c] =>
     match c.toNat? with
     | some c => let (t, o) := s.t.step s.max s.probes (.frame c)
-                ({ s with t := t }, [s!"{showOut o} {showTable t}"])
+                ({ s with t := t }, [s!"{showOut o}"])
     | none => (s, ["bad-op"])
+  | ["table"] => (s, [showTable s.t])
   | ["#flush"] => (s, [])
   | _ => (s, ["bad-op"])
 
